@@ -14,3 +14,5 @@ def run(ctx, rep):
     lock.rule_L1_pairing(mod, rep, ctx.config)
     from ..rules import misc
     misc.rule_expanders_free_null(mod, rep)
+    from ..rules import more
+    more.rule_meminit_refact(mod, rep)
